@@ -38,6 +38,8 @@ class SimWorld:
         self.clock_script = clock_script  # callable(world, t) -> SyncStatus value, or None => Synchronized
         self.exec_fault = None  # callable(world) -> ExecutorError value or None, consulted at each run()
         self.permute = False
+        self.pending_mode = False   # leaf futures inside a SeqFuture may answer Pending once (suspended send)
+        self.polled_once = set()
         self.fired = []         # (id, occ, time value)
         self.gen_count = {}
         self.install_models(it.models)
@@ -224,6 +226,18 @@ class SimWorld:
             return Opaque("KeyedLeafFut", id=g.data["id"], occ=g.data.get("occ", 0), key=key)
 
         def pin_poll(it, cal, args):
+            if w.pending_mode:
+                # a send that finds the target mailbox full suspends: the sub-future answers Pending once (environment
+                # choice) and completes when polled again
+                leaf = args[0]
+                if isinstance(leaf, Agg) and leaf.name == "Pin":
+                    leaf = leaf.fields[0]   # Pin<&mut F>: the location of the sub-future inside the SeqFuture's vector
+                key = (id(leaf.cell), leaf.path) if isinstance(leaf, Ptr) else id(leaf)
+                if key not in w.polled_once:
+                    w.polled_once.add(key)
+                    if it.choose(2, "leaf-pending") == 1:
+                        it.event("leaf-pending")
+                        return Agg("Poll", [], variant="Pending")
             w.run_future(args[0])
             return Agg("Poll", [unit()], variant="Ready")
 
@@ -318,9 +332,15 @@ class SimWorld:
             return
         if isinstance(v, Agg) and v.name == "SeqFuture":
             holder = Cell(v, tag="seq")
-            r = it.call_fn("SeqFuture", "Future", "poll", [Agg("Pin", [Ptr(holder, (), "ref")]), ref(Opaque("Context"), "cx")])
-            if r.variant != "Ready":
-                raise Unsupported("SeqFuture returned Pending in a world whose leaves are always ready")
+            # the executor polls the compound future again each time it is woken (every suspended send is eventually
+            # resumed: C12's wake-up clause, assumed); bounded by the number of sub-futures
+            for _ in range(len(v.fields[0].fields) + 2):
+                r = it.call_fn("SeqFuture", "Future", "poll", [Agg("Pin", [Ptr(holder, (), "ref")]), ref(Opaque("Context"), "cx")])
+                if r.variant == "Ready":
+                    return
+                if not self.pending_mode:
+                    raise Unsupported("SeqFuture returned Pending in a world whose leaves are always ready")
+            it.event("seq-never-completes")
             return
         raise Unsupported(f"run_future: {v!r}")
 
